@@ -503,6 +503,56 @@ def distanceP (a b : PLoc) (ty : DistType) : R Nat :=
         | none => throw .Location
       | .empty, _ => throw .EmptyLocation
 
+/-! ### `__eq__` / `__hash__` -/
+
+/-- `self.parent != other.parent` negated: both `None`, or `Parent.__eq__` — `equals_except_location` plus equal
+    `location` / `strand`, which hold here because start, end and strand were compared before (the location stored in
+    the parent of a SingleInterval is that interval without parent) -/
+def parentEq (a b : PKey) : Bool :=
+  match a, b with
+  | [], [] => true
+  | _ :: _, _ :: _ => eqExceptLoc a b
+  | _, _ => false
+
+/-- `SingleInterval.__eq__` for two single intervals -/
+def singleEq (x : Blk) (sa : Strand) (pa : PKey) (y : Blk) (sb : Strand) (pb : PKey) : Bool :=
+  x.1 == y.1 && x.2 == y.2 && sa == sb && parentEq pa pb
+
+/-- `__eq__` of the three classes (`type(other) is not …` ⇒ `False`; CompoundInterval: same number of blocks and
+    `all(block1 == block2 …)`, every block being a SingleInterval on the strand and parent of its location) -/
+def locEqP (a b : PLoc) : Bool :=
+  match a.1, b.1 with
+  | .single x sa, .single y sb => singleEq x sa a.2 y sb b.2
+  | .compound la, .compound lb =>
+    la.blocks.length == lb.blocks.length &&
+      (la.blocks.zip lb.blocks).all (fun p => singleEq p.1 la.strand a.2 p.2 lb.strand b.2)
+  | .empty, .empty => true
+  | _, _ => false
+
+/-- the id component of the hashed tuple: `self.parent.id if self.parent else 0` -/
+def hashParent (p : PKey) : Option (Option String) :=
+  match p with
+  | [] => none
+  | _ :: _ => some (parentId p)
+
+/-- the tuple handed to `hash()`: `(start, end, strand, id)` / `(_starts, _ends, strand, id)` / `"EmptyLocation"`
+    (equal tuples have equal hashes) -/
+inductive HashKey where
+  | single (s e : Nat) (st : Strand) (pid : Option (Option String))
+  | compound (starts ends : List Nat) (st : Strand) (pid : Option (Option String))
+  | empty
+  deriving DecidableEq, Repr
+
+/-- `__hash__` up to the final `hash()` of the tuple -/
+def hashKeyP (a : PLoc) : HashKey :=
+  match a.1 with
+  | .single b st => .single b.1 b.2 st (hashParent a.2)
+  | .compound l => .compound (l.blocks.map Prod.fst) (l.blocks.map Prod.snd) l.strand (hashParent a.2)
+  | .empty => .empty
+
+/-- what the `eqhash` operation observes: `a == b`, and "equal locations have equal hashes" -/
+def eqHashP (a b : PLoc) : Bool × Bool := (locEqP a b, !locEqP a b || decide (hashKeyP a = hashKeyP b))
+
 /-! ### reverse / strand / shift -/
 
 /-- `reverse()` -/
